@@ -764,7 +764,7 @@ func init() {
 			for s := 0; s < n; s++ {
 				us = append(us, c18Single(s, n))
 			}
-			us = append(us, c18ErrorsAndHistories(), c18SlowRound(), c18NodeFaults(), c18AddressFamilies(), c18AgentBinary())
+			us = append(us, c18ErrorsAndHistories(), c18SlowRound(), c18NodeFaults(), c18AddressFamilies(), c18FailedPeriodicKeepAlive(), c18AgentBinary())
 			for s := 0; s < 4; s++ {
 				us = append(us, c18Drivers(s, 4))
 			}
